@@ -76,6 +76,17 @@ class StateMeta(type):
                 for base in reversed(bases)
                 for key, value in getattr(base, "__TYPE_PARAMETERS__", {}).items()
             },
+            # generic bases parametrized with own type variables hand those on
+            **{
+                parameter: argument
+                for alias in namespace.get("__orig_bases__", ())
+                if isinstance(get_origin(alias), StateMeta)
+                for parameter, argument in zip(
+                    get_origin(alias).__type_params__,
+                    get_args(alias),
+                    strict=False,
+                )
+            },
             **(type_parameters or {}),
         }
         state_type.__TYPE_PARAMETERS__ = type_parameters  # pyright: ignore[reportAttributeAccessIssue]
